@@ -47,7 +47,8 @@ DEV_SELSEND = "chan:select-send-on-closed-no-panic"
 DEV_FULLSEND = "chan:send-blocked-on-full-closed-no-panic"
 DEV_TRYSEL = "select:nonblocking-polls-one-case-at-a-time-and-parks"
 DEV_SELSEL = "select:recv-case-refuses-select-sender"
-ALL_DEVS = (DEV_SELSEND, DEV_FULLSEND, DEV_TRYSEL, DEV_SELSEL)
+DEV_SELPARK = "select:recv-case-arms-and-parks-ignoring-other-cases"
+ALL_DEVS = (DEV_SELSEND, DEV_FULLSEND, DEV_TRYSEL, DEV_SELSEL, DEV_SELPARK)
 
 
 def select_send_first(cases):
@@ -78,6 +79,9 @@ def go_outcomes(cfg, dev=frozenset(), limit=300000):
       DEV_SELSEL   - the receive case of a blocking select that probes its sends first, or that also sends on the
                      same channel, never meets a sender that is itself a select (unless a plain sender is parked
                      on the channel too);
+      DEV_SELPARK  - the receive case of a BLOCKING select on an unbuffered channel on which a sender is (or, for a
+                     select-sender that committed elsewhere and has not yet unregistered, still is) counted arms the
+                     channel and waits in chanTryRecv's second phase: from then on the select ignores its other cases;
       DEV_TRYSEL   - a non-blocking select polls its cases one at a time (so `default` can be taken although at
                      every instant some case was ready), and its receive case on an unbuffered channel with a parked
                      sender PARKS as a receiver (any sender may then serve it; it can stay parked for ever).
@@ -139,6 +143,9 @@ def go_outcomes(cfg, dev=frozenset(), limit=300000):
                             receivers.setdefault(c, []).append((i, pi, True, True))
                         elif snd:
                             senders.setdefault(c, []).append((i, v, pi, False, False))
+                    continue
+                if op[1] and sub[i][1]:
+                    receivers.setdefault(op[2][sub[i][0]][0], []).append((i, sub[i][0], True, True))
                     continue
                 for k, (c, snd, v) in enumerate(op[2]):
                     if snd:
@@ -215,6 +222,20 @@ def go_outcomes(cfg, dev=frozenset(), limit=300000):
                         if not parked_senders or other_recv:
                             succ.append(nxt)
             else:
+                if op[1] and sub[i][1]:
+                    # parked on one receive case (DEV_SELPARK): only a rendezvous or close gets it out
+                    if ch[op[2][sub[i][0]][0]][1]:
+                        succ.append((pos, ch, rs, posted, upd(sub, i, (0, False))))
+                    continue
+                if op[1] and DEV_SELPARK in dev:
+                    for k, (c, snd, v) in enumerate(op[2]):
+                        if snd or caps[c] != 0 or ch[c][1]:
+                            continue
+                        counted = any(j != i and blk and pk for (j, _, _, blk, pk) in senders.get(c, [])) or \
+                            any(j != i and o[0] == "S" and o[1] and any(cc == c and sd for (cc, sd, _) in o[2])
+                                for j in range(n) for o in progs[j])
+                        if counted:
+                            succ.append((pos, ch, rs, upd(posted, i, True), upd(sub, i, (k, True))))
                 any_enabled = False
                 for k, (c, snd, v) in enumerate(op[2]):
                     buf, closed = ch[c]
@@ -545,6 +566,7 @@ def systematic_cfgs():
         out.append(([cap], [[("S", False, ((0, True, 5),))], [("r", 0)]]))
         out.append(([cap], [[("S", False, ((0, False, 0),))], [("s", 0, 5)]]))
         out.append(([cap], [[("c", 0)], [("S", True, ((0, False, 0),))], [("r", 0)]]))
+    out.append(([0, 1], [[("S", True, ((0, True, 4),))], [("r", 0), ("S", True, ((0, False, 0), (1, True, 5)))]]))
     for c0, c1 in ((0, 0), (0, 1), (1, 1), (2, 0)):
         out.append(([c0, c1], [[("S", True, ((0, False, 0), (1, False, 0)))], [("s", 0, 7)], [("s", 1, 8)]]))
         out.append(([c0, c1], [[("S", True, ((0, True, 5), (1, False, 0)))], [("S", True, ((0, False, 0), (1, True, 6)))]]))
@@ -649,7 +671,8 @@ def run(ctx, args):
     rng = ctx.rng
     quick = ctx.tier == "quick"
     st = lean_check(ctx, ["LlgoVerif.Props.C10"], ["LlgoVerif/Props/C10.lean"],
-                    extra_files=["LlgoVerif/Model/Chan.lean", "LlgoVerif/Lemmas/Chan.lean", "LlgoVerif/Lemmas/ChanThreads.lean"],
+                    extra_files=["LlgoVerif/Model/Chan.lean", "LlgoVerif/Lemmas/Chan.lean", "LlgoVerif/Lemmas/ChanThreads.lean",
+                                 "LlgoVerif/Lemmas/ChanLive.lean"],
                     leanchecker=(ctx.tier == "thorough"))
     modeld = build_driver(ctx, "modeld_c10")
     real = build_real(ctx)
@@ -701,7 +724,7 @@ def run(ctx, args):
 
     # 2. exhaustive exploration of small configurations: every transition of the model's state graph is replayed
     cfgs = systematic_cfgs()
-    n_rand = 40 if quick else 600
+    n_rand = 32 if quick else 300
     for i in range(n_rand):
         k = i % 4
         if k == 0:
@@ -712,10 +735,10 @@ def run(ctx, args):
             cfgs.append(rand_cfg(rng, rng.randint(1, 2), 2, 2, 3))
         else:
             cfgs.append(rand_cfg(rng, rng.randint(1, 3), 2, rng.randint(2, 4) if not quick else 3, 2 if quick else 3))
-    max_states = 1200 if quick else 20000
+    max_states = 1200 if quick else 6000
     ex = model_explore(modeld, cfgs, max_states, True)
     jobs = []
-    budget = 450000 if quick else 30000000      # script lines
+    budget = 300000 if quick else 6000000      # script lines
     used = 0
     for cfg, (stats, scheds) in zip(cfgs, ex):
         base = cfg_lines(cfg)
@@ -737,7 +760,7 @@ def run(ctx, args):
 
     # 3. random-priority schedules on larger configurations
     jobs = []
-    n_big = 150 if quick else 6000
+    n_big = 100 if quick else 1500
     for i in range(n_big):
         cfg = rand_cfg(rng, rng.randint(1, 3), 2, rng.randint(3, 4), 4, psel=0.25)
         count_cfg(cfg)
@@ -749,7 +772,7 @@ def run(ctx, args):
     n_lines += sum(len(j[1]) for j in jobs)
 
     # 4. end-to-end route (thorough tier, or VERIF_C10_E2E=1)
-    if not quick or os.environ.get("VERIF_C10_E2E") == "1":
+    if (not quick and os.environ.get("VERIF_C10_E2E") != "0") or os.environ.get("VERIF_C10_E2E") == "1":
         e2e_part(ctx)
 
     # verdict on the correspondence
@@ -783,6 +806,19 @@ def run(ctx, args):
 
 
 # ------------------------------------------------------------------ end-to-end route (llgo-compiled programs)
+def run_capture_stderr(path, timeout, tmpdir):
+    """println of llgo programs goes to stderr; keep what was printed before a timeout (a hang is an observation)"""
+    import subprocess
+    import tempfile
+    with tempfile.TemporaryFile(dir=tmpdir) as f:
+        try:
+            rc = subprocess.run([path], stderr=f, stdout=subprocess.DEVNULL, timeout=timeout).returncode
+        except subprocess.TimeoutExpired:
+            rc = "timeout"
+        f.seek(0)
+        return f.read().decode("utf-8", "replace"), rc
+
+
 def e2e_part(ctx):
     """llgo-compiled multi-goroutine programs with schedule-independent results, at -O0 and -O2, every run under a
     timeout (a hang is an observation); expected output = the reference Go toolchain's output of the same program."""
@@ -804,7 +840,7 @@ def e2e_part(ctx):
         p = e2e.llgo_build(ctx, d, out, opt=opt)
         if p.returncode != 0:
             raise HarnessBuildError("llgo build %s of the C10 e2e program failed: %s" % (opt, (p.stdout + p.stderr)[-3000:]))
-        _, err, rc = e2e.run_prog(out, timeout=40)
+        err, rc = run_capture_stderr(out, 40, d)
         got = [l for l in err.split("\n") if l]
         obs[opt] = {"rc": rc, "lines": len(got), "tail": got[-3:]}
         # schedule-independent part
